@@ -6,5 +6,5 @@ Extraction Language OCaml.
 Extraction "../ocaml/C19/gen_c19.ml"
   run run_fuel run_hist run_hist_with ps0 ps_scan_reset trace count_starts first_fatal permitted within_budget
   rfc_resolve localfile_resolve xmlurl_resolve xmluri_resolve default_source file_url_path
-  normalize_uri default_bad_escape no_dot_segments plain_rel
+  pct_decode unescape_once normalize_uri default_bad_escape no_dot_segments plain_rel
   str_eqb split_slash join_slash scheme_split.
